@@ -81,10 +81,16 @@ def main(tier):
                         ok = ok and "par_iter" in s
                     if "std error" in fams:
                         ok = ok and "std" in s
-                    run.ob("surplus", "%s %s only in %s: additive family %s" % (kind, k, cname, fams), ok,
-                           key="surplus|%s %s exists only with features [%s]" % (kind, k, ",".join(s)),
-                           detail="not in an enumerated additive family (serde impls, par_iter, std::error::Error)",
+                    # Items that exist only in a richer configuration cannot be referenced by the (identical) code of the base configuration, so they
+                    # cannot change the result of a core call - with one exception: an implicit-dispatch impl (Drop) changes what identical MIR does.
+                    implicit = kind == "impl" and k.startswith("impl core::ops::drop::Drop for ")
+                    run.ob("surplus", "%s %s only in %s (%s)" % (kind, k, cname, ("family " + ",".join(fams)) if ok else "additional item, unreachable from the base configuration's code"),
+                           ok or not implicit,
+                           key="surplus|%s %s exists only with features [%s] and is dispatched implicitly" % (kind, k, ",".join(s)),
+                           detail="a Drop impl that exists only under a feature changes the behaviour of unchanged code",
                            nontrivial="%s:surplus" % cname)
+                    if not ok:
+                        run.extra.setdefault("surplus_outside_known_families", []).append("%s %s [%s]" % (kind, k, cname))
     for p, n in nkeys.items():
         run.floor("function keys in base configuration (%s)" % p, n, 200)
     # par_iter clause
